@@ -143,7 +143,8 @@ Proof.
 Qed.
 
 Lemma source_groupby_ok :
-  gfn_ok false gen_groupby_do_fn && gfn_ok true gen_groupby_map_fn && gen_groupby_count_agg_skeleton_ok = true.
+  gfn_ok false gen_groupby_do_fn && gfn_ok true gen_groupby_map_fn &&
+  (gcomp_ok false gen_groupby_count && gcomp_ok true gen_groupby_agg && gen_shuffle_groupby_skeleton_ok) = true.
 Proof. vm_compute. reflexivity. Qed.
 
 (* AgentSet.do / shuffle_do / map as they are in the working tree, run on the model state, are the
@@ -246,4 +247,21 @@ Proof.
   pose proof source_groupby_ok as Hg. rewrite !andb_true_iff in Hg. destruct Hg as [[Hd Hm] _].
   split; [apply (run_gfn_bridge ex k sc false)|apply (run_gfn_bridge ex k sc true)];
     try assumption; apply source_fn_ok; exact H.
+Qed.
+
+(* ------------------------------------------------------------------ GroupBy.count / agg *)
+Lemma run_gcomp_bridge c :
+  (gcomp_ok false c = true -> forall f attr gs s, run_gcomp c f attr gs s = group_count gs s) /\
+  (gcomp_ok true c = true -> forall f attr gs s, run_gcomp c f attr gs s = group_agg f attr gs s).
+Proof.
+  unfold gcomp_ok, run_gcomp, group_count, group_agg. split; intros H f attr gs s;
+    apply andb_true_iff in H; destruct H as [H1 H2]; rewrite H1; destruct (gc_val c); try discriminate; reflexivity.
+Qed.
+
+Lemma source_count_agg f attr gs s :
+  run_gcomp gen_groupby_count f attr gs s = group_count gs s /\
+  run_gcomp gen_groupby_agg f attr gs s = group_agg f attr gs s.
+Proof.
+  split; [apply (proj1 (run_gcomp_bridge gen_groupby_count))|apply (proj2 (run_gcomp_bridge gen_groupby_agg))];
+    vm_compute; reflexivity.
 Qed.
